@@ -122,6 +122,11 @@ func registerVerifExternals(sh *Shared) {
 	})
 	reg(mainPath+".scratchDir", func(fr *frame, args []value) value { return "" })
 	reg(mainPath+".scratchDone", func(fr *frame, args []value) value { return nil })
+	// symClock(true): time.Now/Since/Until return symbolic, non-decreasing instants
+	reg(mainPath+".symClock", func(fr *frame, args []value) value {
+		fr.i.symClock = args[0].(bool) && fr.i.ex.concrete == nil
+		return nil
+	})
 	reg(mainPath+".thorough", func(fr *frame, args []value) value { return sh.Thorough })
 	reg(mainPath+".symbolic", func(fr *frame, args []value) value { return true })
 	reg(mainPath+".observe", func(fr *frame, args []value) value {
